@@ -2,14 +2,16 @@
 from vlib import *
 from props.common import *
 from gen import dtypes as gendtypes
-import struct, array, sys, math
+import struct, array, sys, math, io, re
 
 ID = 'C18'
 COQ_PROPS = ['Props/C18.v']
 COQ_IMPORTS = ['Prims', 'CaseLib', 'Golomb', 'IntCodec', 'BitsCore', 'Mutators']
 RULE = ('all codes b B h H l L i I q Q e f d x prefixes > < = @ x counts 1..4 and multi-code formats x values at the integer limits, special floats (subnormal, inf, -0.0); pack vs struct.pack, '
         'unpack vs struct.unpack; Array(code) vs struct/array.array, array.array input accepted only for matching kind and width; le/be/ne relations and byteswap (BitArray and Array) on whole-byte contents. '
-        'non-trivial = multi-byte code; distinct by arguments')
+        'byteswap with struct-style string patterns: every code x every spelling of the prefix (none @ = < >) x counts, mixed patterns, several records, bytes before / after, start / end / repeat: '
+        'little-endian struct encoding -> big-endian one with the standard item sizes; format strings with a history (pp of every class and of Array, earlier pack / unpack / readlist / peeklist / byteswap, '
+        'list formats, Array constructors, callers editing returned lists; cold or warm caches) then compared with struct twice. non-trivial = multi-byte code; distinct by arguments')
 TRUSTED_BASE = ['translator tools/gen/dtypes.py for REPLACEMENTS_BE/LE/NE and PACK_CODE_SIZE (obligations checked by vm_compute over the generated tables)']
 ASSUMPTIONS = ['the real struct and array modules are the reference']
 
@@ -93,7 +95,75 @@ def gen_cases(rng, tier):
                'trail': rand_bits(rng, rng.choice([0, 0, 1, 7, 8, 9, w - 8, w - 7, w - 1, w // 2 + 1]), 'rand')}
     for _ in range(N // 2):
         nb = rng.randrange(1, 10)
-        yield {'op': 'endian', 'bits': rand_bits(rng, 8 * nb), 'fmt': rng.choice([None, 0, 1, 2, nb, [1, 2], 'h', '2h', 'q', 'bh']), 'cls': rng.choice(MUTABLE)}
+        yield {'op': 'endian', 'bits': rand_bits(rng, 8 * nb), 'fmt': rng.choice([None, 0, 1, 2, nb, [1, 2], 'h', '2h', 'q', 'bh', 'l', '@L', '=hl', '<2h', '>bq', 'e', '3b', '@lb', 'Lh', '1i']), 'cls': rng.choice(MUTABLE)}
+    # byteswap with a struct-style STRING pattern: the endianness character is optional and has no influence, the item sizes are struct's STANDARD
+    # sizes for every code (l/L = 4 whatever the platform's C long is); the little-endian encoding of the records becomes the big-endian one.
+    # Every code x every spelling of the prefix x counts, then mixed patterns, over several records, with bytes before / after that must stay.
+    def swapcase(pre, body, flat):
+        tot = sum(SIZES[ch] for ch in flat)
+        nrec = rng.choice([1, 1, 2, 3, 0])
+        lead = [rng.randrange(256) for _ in range(rng.choice([0, 0, 0, 1, 3]))]
+        tail = [rng.randrange(256) for _ in range(rng.choice([0, 0, rng.randrange(0, tot), tot, tot + 1, 2 * tot + 1]))]
+        start = 8 * len(lead) if lead or rng.random() < 0.2 else None
+        end = 8 * (len(lead) + nrec * tot) if len(tail) >= tot or rng.random() < 0.2 else None
+        return {'op': 'swapstruct', 'pre': pre, 'body': body, 'codes': flat, 'recs': [[okval(rng, ch) for ch in flat] for _ in range(nrec)], 'lead': lead, 'tail': tail,
+                'start': start, 'end': end, 'repeat': rng.random() < 0.8, 'args': rng.choice(['kw', 'pos']), 'cls': rng.choice(MUTABLE)}
+    for code in CODES:
+        for pre in SWAP_PREFIXES:
+            for body in (code, '2' + code, code * 3):
+                if tier == 'quick' and rng.random() < 0.35: continue
+                yield swapcase(pre, body, code * (1 if body == code else 2 if body[0] == '2' else 3))
+    for _ in range(150 if tier == 'quick' else 4000):
+        body, flat = rand_body(rng)
+        yield swapcase(rng.choice(SWAP_PREFIXES), body, flat)
+    # the format string has a HISTORY: other consumers of the very same string (pretty printers of every class and of Array, earlier pack / unpack /
+    # readlist / peeklist calls, list formats, byteswap, Array constructors, callers that edit the list they were given) ran before the comparison
+    # with struct, from a cold cache or a warm one. Whatever is remembered about a format must not change what it means.
+    for _ in range(260 if tier == 'quick' else 5000):
+        body, flat = rand_body(rng, rng.choice(['count', 'count', 'double', 'samesize', 'mix', 'bigcount']))
+        pre = rng.choice('><=')
+        vals = [okval(rng, ch) for ch in flat]
+        ref = list(struct.pack(pre + body, *vals))
+        yield {'op': 'hist', 'fmt': pre + body, 'pre': pre, 'codes': flat, 'vals': vals, 'ref': ref, 'cold': rng.random() < 0.6,
+               'before': [rng.choice(HIST_CONSUMERS) for _ in range(rng.choice([1, 1, 2, 3, 5]))],
+               'data': [rng.randrange(256) for _ in range(len(ref) * rng.choice([1, 2, 3]))]}
+
+SWAP_PREFIXES = ['', '@', '=', '<', '>']
+HIST_CONSUMERS = ['pp_bits', 'pp_bitarray', 'pp_cstream', 'pp_stream', 'pp_array', 'pp_array_own', 'pp_combo', 'pp_lsb0', 'pack', 'pack_other', 'pack_combo', 'pack_mult', 'pack_list',
+                  'unpack', 'unpack_mut', 'unpack_list', 'readlist', 'readlist_mut', 'peeklist', 'byteswap', 'array_ctor', 'astype', 'dtype', 'read', 'repr_array',
+                  'expanded_names', 'array_dtype_set']
+
+def expanded_name(pre, code):
+    """the dtype a struct code stands for, from the struct documentation: kind, standard size, byte order of the prefix"""
+    kindname = 'float' if code in 'efd' else 'int' if code.islower() else 'uint'
+    return kindname + ('' if SIZES[code] == 1 else {'<': 'le', '>': 'be', '=': 'ne', '@': 'ne'}[pre]), 8 * SIZES[code]
+SIZE_GROUPS = ['bB', 'hHe', 'lLiIf', 'qQd']
+
+def okval(rng, code):
+    """a value of the code's range that struct itself can pack (struct refuses floats beyond the range of 'e' / 'f')"""
+    for _ in range(20):
+        v = rval(rng, code)
+        try:
+            struct.pack('<' + code, v); return v
+        except (OverflowError, struct.error): continue
+    return 1.5 if code in 'efd' else 1
+
+def rand_body(rng, style=None):
+    """(body, flat codes) of a struct-style format without its endianness character"""
+    style = style or rng.choice(['count', 'double', 'samesize', 'mix', 'mix', 'mix', 'bigcount'])
+    if style == 'count':
+        ch = rng.choice(CODES); n = rng.choice([1, 2, 2, 3, 4])
+        return (str(n) if n > 1 or rng.random() < 0.25 else '') + ch, ch * n
+    if style == 'double':
+        ch = rng.choice(CODES); n = rng.choice([2, 2, 3]); return ch * n, ch * n
+    if style == 'samesize':
+        g = rng.choice(SIZE_GROUPS); a, b = rng.choice(g), rng.choice(g); return a + b, a + b
+    if style == 'bigcount':
+        ch = rng.choice(CODES); n = rng.choice([10, 11, 12, 16]); return f'{n}{ch}', ch * n
+    body, flat = '', ''
+    for _ in range(rng.randrange(1, 5)):
+        ch = rng.choice(CODES); n = rng.choice([1, 1, 2, 3]); body += (str(n) if n > 1 else '') + ch; flat += ch * n
+    return body, flat
 
 def kind(c): return c['op']
 
@@ -168,6 +238,86 @@ def run_impl(c):
             a.byteswap(); twice = a.data.bin
             return [before, once, twice]
         return attempt(f)
+    if op == 'swapstruct':
+        def f():
+            little = b''.join(struct.pack('<' + c['body'], *r) for r in c['recs'])
+            s = cls_of(c['cls'])(bytes=bytes(c['lead']) + little + bytes(c['tail']))
+            pat = c['pre'] + c['body']
+            if c['args'] == 'pos': call = lambda: s.byteswap(pat, c['start'], c['end'], c['repeat'])
+            else:
+                kw = {k: c[k] for k in ('start', 'end') if c[k] is not None}
+                if not c['repeat'] or c['pre'] == '=': kw['repeat'] = c['repeat']
+                call = lambda: s.byteswap(pat, **kw)
+            r1 = call(); once = list(s.tobytes()); n1 = len(s)
+            r2 = call(); twice = list(s.tobytes())
+            return [once, twice, r1, r2, n1]
+        return attempt(f)
+    if op == 'hist':
+        from bitstring import BitStream, ConstBitStream, Dtype
+        canon = lambda vs: [fhex(v) if isinstance(v, float) else v for v in vs]
+        def tryv(fn):
+            try: return ['ok', fn()]
+            except Hang: raise
+            except Exception as e: return ['err', exn_name(e)]
+        def f():
+            if c['cold']: clear_caches()
+            fmt, vals, data, ref = c['fmt'], c['vals'], bytes(c['data']), bytes(c['ref'])
+            code0 = c['pre'] + c['codes'][0]
+            sink = io.StringIO()
+            def consume(b):
+                if b == 'pp_bits': Bits(bytes=data).pp(fmt, stream=sink)
+                elif b == 'pp_bitarray': BitArray(bytes=data).pp(fmt, stream=sink, width=60)
+                elif b == 'pp_cstream': ConstBitStream(bytes=data).pp(fmt, stream=sink, show_offset=False)
+                elif b == 'pp_stream': BitStream(bytes=data).pp(fmt, stream=sink, sep='|')
+                elif b == 'pp_array': Array('uint8', data).pp(fmt, stream=sink)
+                elif b == 'pp_array_own': Array(code0, data).pp(fmt, stream=sink); Array(code0, data).pp(stream=sink)
+                elif b == 'pp_combo': tryv(lambda: Bits(bytes=data).pp(fmt + ', hex', stream=sink)); tryv(lambda: Bits(bytes=data).pp('bin, ' + fmt, stream=sink)); Bits(bytes=data).pp(code0 + ', ' + code0, stream=sink)
+                elif b == 'pp_lsb0':
+                    bitstring.options.lsb0 = True
+                    try: Bits(bytes=data).pp(fmt, stream=sink)
+                    finally: bitstring.options.lsb0 = False
+                elif b == 'pack': pack(fmt, *vals)
+                elif b == 'pack_other': pack(fmt, *[type(v)(1) for v in vals])
+                elif b == 'pack_combo': pack(fmt + ', bin', *vals, '01'); pack('hex, ' + fmt, 'f', *vals)
+                elif b == 'pack_mult': pack('2*' + fmt, *vals, *vals)
+                elif b == 'pack_list': pack(fmt + ',' + fmt, *vals, *vals); pack(fmt, *vals)
+                elif b == 'unpack': Bits(bytes=data).unpack(fmt)
+                elif b == 'unpack_mut':
+                    r = Bits(bytes=data).unpack(fmt); r.reverse(); del r[1:]; r.append(None)
+                elif b == 'unpack_list': Bits(bytes=data).unpack([fmt]); Bits(bytes=data + data).unpack([fmt, fmt])
+                elif b == 'readlist': ConstBitStream(bytes=data).readlist(fmt)
+                elif b == 'readlist_mut':
+                    r = BitStream(bytes=data).readlist([fmt]); del r[:]
+                elif b == 'peeklist': ConstBitStream(bytes=data).peeklist(fmt)
+                elif b == 'byteswap': BitArray(bytes=data).byteswap(fmt)
+                elif b == 'array_ctor': tryv(lambda: Array(fmt)); Array(code0, data); Array(code0, vals[:1])
+                elif b == 'astype': tryv(lambda: Array('uint8', [1, 2, 3]).astype(code0)); tryv(lambda: Array(code0, vals).astype('float64')); Array(code0, data).astype(code0)
+                elif b == 'dtype': Dtype(fmt)
+                elif b == 'read': ConstBitStream(bytes=data).read(fmt)
+                elif b == 'repr_array': repr(Array(code0, data)); str(Array(code0, data).dtype)
+                elif b == 'expanded_names':
+                    for ch in dict.fromkeys(c['codes']):
+                        nm, ln = expanded_name(c['pre'], ch)
+                        Dtype(nm, ln); Dtype(f'{nm}{ln}'); Bits(bytes=data).unpack(f'{nm}{ln}'); Bits(bytes=data).pp(f'{nm}{ln}', stream=sink); Array(f'{nm}{ln}', data)
+                elif b == 'array_dtype_set':
+                    a = Array(code0, data); a.dtype = '>' + c['codes'][-1]; a.dtype = code0; a.pp(fmt, stream=sink)
+                else: raise AssertionError(b)
+            notes = []
+            for b in c['before']:
+                notes.append(tryv(lambda: consume(b))[-1] or 'done')   # several consumers refuse some formats (pp: more than two tokens, Dtype: not a single token): that is their business
+            out = []
+            for _ in range(2):
+                p = tryv(lambda: pack(fmt, *vals))
+                out.append([['ok', [list(p[1].tobytes()), len(p[1])]] if p[0] == 'ok' else p,
+                            tryv(lambda: canon(p[1].unpack(fmt))) if p[0] == 'ok' else None,
+                            tryv(lambda: canon(Bits(bytes=ref).unpack(fmt))),
+                            tryv(lambda: canon(ConstBitStream(bytes=ref).readlist(fmt))),
+                            tryv(lambda: canon(BitStream(bytes=ref + b'\x55').peeklist([fmt])))])
+            arr = None
+            if len(set(c['codes'])) == 1:
+                arr = tryv(lambda: (lambda a: [list(a.tobytes()), canon(a.tolist())])(Array(code0, vals)))
+            return [out, arr, notes]
+        return attempt(f)
     if op == 'endian':
         s = cls_of(c['cls'])(bin=c['bits'])
         def f():
@@ -183,12 +333,20 @@ def run_impl(c):
         return attempt(f)
 
 SIZES = {'b': 1, 'B': 1, 'h': 2, 'H': 2, 'l': 4, 'L': 4, 'i': 4, 'I': 4, 'q': 8, 'Q': 8, 'e': 2, 'f': 4, 'd': 8}
+def pattern_sizes(fmt):
+    """byte sizes of the items of a struct-style byteswap pattern: optional endianness character (without influence), then codes with optional
+    decimal counts; the sizes are struct's standard sizes (SIZES, written from the struct documentation)"""
+    m = re.fullmatch(r'[<>@=]?((?:\d*[bBhHlLiIqQefd])+)', fmt)
+    sizes = []
+    for cnt, ch in re.findall(r'(\d*)([bBhHlLiIqQefd])', m.group(1)): sizes += [SIZES[ch]] * (int(cnt) if cnt else 1)
+    return sizes
+
 def ref_byteswap(bits, fmt):
     n = len(bits) // 8
     by = [bits[8 * i:8 * i + 8] for i in range(n)]
     if fmt is None or fmt == 0: sizes = [n]
     elif isinstance(fmt, int): sizes = [fmt]
-    elif isinstance(fmt, str): sizes = [SIZES[ch] for ch in fmt.replace('2h', 'hh')]
+    elif isinstance(fmt, str): sizes = pattern_sizes(fmt)
     else: sizes = list(fmt)
     tot = sum(sizes)
     if tot == 0: return bits, 0
@@ -253,6 +411,38 @@ def oracle(c, obs):
         if before != here + c['trail']: return f"Array({c['pre'] + c['code']!r}, {c['vals']}, trailing {c['trail']!r}).data is {before}, struct gives {here} + trailing"
         if once != there + c['trail']: return f"Array({c['pre'] + c['code']!r}, {c['vals']}, trailing_bits={c['trail']!r}).byteswap() gave {once}; the other endianness of the same values is {there}, trailing bits {c['trail']!r} unchanged"
         if twice != before: return f"Array.byteswap() twice is not the identity: {before} -> {twice}"
+        return None
+    if op == 'swapstruct':
+        pat = c['pre'] + c['body']
+        call = f"{c['cls']}.byteswap({pat!r}, start={c['start']}, end={c['end']}, repeat={c['repeat']})"
+        little = [struct.pack('<' + c['body'], *r) for r in c['recs']]
+        big = [struct.pack('>' + c['body'], *r) for r in c['recs']]
+        k = len(little) if c['repeat'] else min(1, len(little))
+        before = bytes(c['lead']) + b''.join(little) + bytes(c['tail'])
+        exp = bytes(c['lead']) + b''.join(big[:k] + little[k:]) + bytes(c['tail'])
+        if obs[0] != 'ok': return f"{call} on {before.hex()} raised {obs}"
+        once, twice, r1, r2, n1 = obs[1]
+        if once != list(exp) or r1 != k or n1 != 8 * len(exp):
+            return (f"{call} on {len(c['recs'])} little-endian record(s) '<{c['body']}' {before.hex()} ({len(c['lead'])} bytes before, {len(c['tail'])} after) gave {bytes(once).hex()} ({r1} repeats); "
+                    f"the big-endian encoding struct.pack('>{c['body']}') of the {k} record(s) in range gives {exp.hex()} ({k} repeats): item sizes are the standard sizes {pattern_sizes(pat)} whatever the prefix")
+        if twice != list(before) or r2 != k: return f"{call} twice on {before.hex()} gave {bytes(twice).hex()} ({r2} repeats), not the original"
+        return None
+    if op == 'hist':
+        fmt = c['fmt']
+        hist = f"after {' -> '.join(c['before'])} with the same format string ({'caches cleared first' if c['cold'] else 'warm caches'})"
+        if obs[0] != 'ok': return f"format {fmt!r} {hist}: raised {obs}"
+        exp = list(struct.pack(fmt, *c['vals']))
+        back = [fhex(v) if isinstance(v, float) else v for v in struct.unpack(fmt, bytes(exp))]
+        rounds, arr = obs[1][:2]
+        for ri, (p, u, u2, rl, pl) in enumerate(rounds):
+            when = f"{hist}, use {ri + 1}"
+            if p[0] != 'ok': return f"pack({fmt!r}, {c['vals']}) {when}: raised {p}"
+            if p[1][0] != exp or p[1][1] != 8 * len(exp): return f"pack({fmt!r}, {c['vals']}).bytes {when} = {bytes(p[1][0]).hex()} ({p[1][1]} bits) but struct.pack gives {bytes(exp).hex()}"
+            for what, got in (('pack(..).unpack', u), ('Bits(bytes=struct.pack(..)).unpack', u2), ('ConstBitStream(..).readlist', rl), ('BitStream(..).peeklist([fmt])', pl)):
+                if got != ['ok', back]: return f"{what}({fmt!r}) {when} gave {got}, struct.unpack gives {back}"
+        if arr is not None:
+            if arr[0] != 'ok' or arr[1][0] != exp or arr[1][1] != back:
+                return f"Array({c['pre'] + c['codes'][0]!r}, {c['vals']}) {hist}: tobytes / tolist gave {arr}; struct gives {bytes(exp).hex()} / {back}"
         return None
     if op == 'endian':
         if obs[0] != 'ok': return f"endian {c} raised {obs}"
